@@ -110,6 +110,16 @@ func c08Cases() []c08Case {
 		add("fee/"+snd.name+"/xvm-deploy-garbage", func(w *fix.World) pb.Transaction {
 			return fix.XVMDeploy(snd.key, w.N.Next(snd.key), []byte("not wasm"))
 		})
+		add("fee/"+snd.name+"/interbroker-invoke-interchain", func(w *fix.World) pb.Transaction {
+			// a direct call of the hub's broker contract with a well-formed IBTP for a contract on
+			// this hub: the broker hands the call data to the EVM on behalf of the sender
+			content, _ := (&pb.Content{Func: "set", Args: [][]byte{[]byte("\x60\xfe\x47\xb1")}}).Marshal()
+			pd, _ := (&pb.Payload{Content: content}).Marshal()
+			_ = pd
+			ib := &pb.IBTP{From: fix.FullID(fix.ChainA, fix.Svc1), To: fmt.Sprintf("%d:%d:%s", fix.ChainID, fix.ChainID, "0x00000000000000000000000000000000000000c1"), Index: 1, Payload: content}
+			data, _ := ib.Marshal()
+			return w.InvokeTx(snd.key, constant.InterBrokerContractAddr, "InvokeInterchain", pb.Bytes(data))
+		})
 		add("fee/"+snd.name+"/ibtp-request", func(w *fix.World) pb.Transaction {
 			p1 := icPairs["p1"]
 			return fix.IBTPTx(snd.key, w.N.Next(snd.key), &pb.IBTP{From: p1.from, To: p1.to, Index: 2, TimeoutHeight: 3}, fix.GoodProof)
@@ -309,6 +319,20 @@ func c08Cases() []c08Case {
 				})
 			}
 		}
+	}
+	// every method of the dispatch surface, well-typed arguments, called by an account that cannot
+	// pay the fee (the fee path of a failed or succeeded call is shared machinery)
+	for mi, sm := range c17Methods() {
+		mi, sm := mi, sm
+		n := len(sm.in)
+		add(fmt.Sprintf("unfunded-call/%s.%s", sm.contract, sm.method), func(w *fix.World) pb.Transaction {
+			var args []*pb.Arg
+			for i := 0; i < n; i++ {
+				args = append(args, c08Arg(c17Methods()[mi], i, 0))
+			}
+			k := fix.Key("c08-never-funded")
+			return fix.InvokeAddr(k, w.N.Next(k), types.NewAddressByStr(sm.addr), pb.TransactionData_BVM, sm.method, args...)
+		})
 	}
 	// two malformed transactions in ONE block: all ordered pairs over a representative menu
 	// (the per-block machinery - signature goroutines, proof groups, invalid-tx map - is
